@@ -143,7 +143,9 @@ def fmt_dt(t):
     return f"{t[0]:04}{t[1]:02}{t[2]:02}T{t[3]:02}{t[4]:02}{t[5]:02}"
 
 
-TZID_STYLES = ("Verif/Zone-%d", "Verif/Zone-%d", "(UTC+01:00) Amsterdam, Berlin, Bern %d", "Customized Time Zone; v%d", "Verif Zone %d, with comma")
+TZID_STYLES = ("Verif/Zone-%d", "Verif/Zone-%d", "(UTC+01:00) Amsterdam, Berlin, Bern %d", "Customized Time Zone; v%d", "Verif Zone %d, with comma",
+               # globally unique ids as Mozilla/Evolution write them: unknown to the tz database as a whole, though their tail is an Olson name
+               "/verif.example/v%d/Europe/Berlin", "/verif.example/2024_%d/America/New_York")
 
 
 def text_escape(s):
@@ -178,7 +180,7 @@ def run(ctx):
         n += 1
         if n % 4 == 0:
             k = rng.randrange(1, 6)
-            style = rng.choice(("Verif/H%d", "Verif/H%d", "(UTC+01:00) Amsterdam, Berlin, Bern %d", "Customized Time Zone; v%d"))
+            style = rng.choice(("Verif/H%d", "Verif/H%d", "(UTC+01:00) Amsterdam, Berlin, Bern %d", "Customized Time Zone; v%d", "/verif.example/h%d/Europe/Berlin"))
             tzids = [style % rng.randrange(3) for _ in range(k)]
             cals = tuple((tzids[j], rng.choice(range(-12 * 60, 14 * 60 + 1, 30)) * 60, rng.choice(("before", "before", "after")),
                           (rng.randrange(1990, 2030), rng.randrange(1, 13), rng.randrange(1, 29), rng.randrange(24), 0, 0)) for j in range(k))
